@@ -48,6 +48,28 @@ class ParticleDecayLS(HelicityDecay):
                 )
                 self.g_ls.set_fix_idx(fix_idx=0, fix_vals=(1.0, 0.0))
 
+    def get_ls_amp(self, data, data_p, **kwargs):
+        """
+        The line shape :math:`R_i(m)` of the split-LS particle models is evaluated
+        here (through `get_barrier_factor2`), so `has_barrier_factor=False` must not
+        replace it by 1: the :math:`q^l B_l'` factors of these models are part of
+        the documented :math:`R_i(m)` and are kept.
+        """
+        if self.has_barrier_factor:
+            return super().get_ls_amp(data, data_p, **kwargs)
+        g_ls = self.get_g_ls()
+        q0 = self.get_relative_momentum2(data_p, False)
+        data["|q0|2"] = q0
+        if "|q|2" in data:
+            q = data["|q|2"]
+        else:
+            q = self.get_relative_momentum2(data_p, True)
+            data["|q|2"] = q
+        ls_amp = self.get_barrier_factor2(
+            data_p[self.core]["m"], q, q0, self.d
+        )
+        return g_ls * tf.cast(to_complex(ls_amp), g_ls.dtype)
+
     def get_barrier_factor2(self, mass, q2, q02, d):
         ls = self.get_ls_list()
         ls_amp = self.core.get_ls_amp(mass, ls, q2=q2, q02=q02, d=d)
